@@ -282,7 +282,7 @@ def gen_op(rnd, s, u):
         mode = rnd.choice(['b', 'b', 'a', 'a', 'ba', ''])
         anchor = member(h)
         return ['move', list(h), xs, anchor if 'b' in mode else None,
-                (member(h) if mode == 'ba' else anchor) if 'a' in mode else None, single]
+                (member(h) if mode == 'ba' else anchor) if 'a' in mode else None, single, rnd.choice(['list', 'list', 'gen'])]
     if c < 50:
         h = list_holder()
         big_ = [q for q in nonempty if len(_hl(s, q)) >= 3]
@@ -303,7 +303,7 @@ def gen_op(rnd, s, u):
     if c < 58:
         h = list_holder()
         cur = _hl(s, h)
-        kind = rnd.choice(['ids', 'ids', 'id', 'name', 'all', 'none', 'int', 'raising'])
+        kind = rnd.choice(['ids', 'ids', 'id', 'name', 'all', 'none', 'int', 'raising', 'ids+name'])
         if kind == 'ids':
             flt = {'kind': 'ids', 'ids': sorted({s['T'][q]['id'] for q in some(0, 3)} | ({s['T'][rnd.choice(cur)]['id']} if cur else set()), key=repr),
                    'as': rnd.choice(['callable', 'kw'])}
@@ -311,6 +311,8 @@ def gen_op(rnd, s, u):
             flt = {'kind': 'id', 'id': s['T'][member(h)]['id']}
         elif kind == 'name':
             flt = {'kind': 'name', 'name': rnd.choice(NAMES)}
+        elif kind == 'ids+name':
+            flt = {'kind': 'ids+name', 'ids': sorted({s['T'][q]['id'] for q in (cur or [x])}, key=repr), 'name': rnd.choice(NAMES)}
         elif kind == 'int':
             flt = {'kind': 'int', 'value': s['T'][member(h)]['id']}
         elif kind == 'raising':
@@ -353,6 +355,8 @@ def gen_op(rnd, s, u):
         return [kind + '.remove', t, x]
     if c < 82:
         L = some(1, 3)
+        if loose and rnd.random() < 0.15:
+            L = [rnd.choice(loose)] * 2          # the same task named twice is still that one task
         single = len(L) == 1 and rnd.random() < 0.6
         return ['floordiv', list(holder), L, single]
     if c < 88:
@@ -786,7 +790,7 @@ def run_history(prop, spec, ops, acc, gen=None, tail=True, judge_from=0, layer='
             # last clause of C11: a task that left a WBS "can be attached to another WBS" -- the attach call may be refused only
             # for a documented reason (cycle, link to an ancestor, id already present), i.e. when its documented effect would
             # break an invariant
-            subj = op[1] if op[0] == 'parent=' else (op[3] if op[0] == 'insert' else (op[2] if op[0] == 'append' else (op[2][0] if len(op[2]) == 1 else None)))
+            subj = op[1] if op[0] == 'parent=' else (op[3] if op[0] == 'insert' else (op[2] if op[0] == 'append' else (op[2][0] if len(set(map(str, op[2]))) == 1 else None)))
             recv = ('t', op[2]) if op[0] == 'parent=' else tuple(op[1])
             if subj in s0['T'] and (recv[0] == 'w' or recv[1] in s0['T']) and not (op[0] == 'parent=' and op[2] is None):
                 rel = s0['T'][subj]['owner'] is None and s0['T'][subj]['parent'] is None and subj in ever_member
